@@ -50,3 +50,142 @@ Proof.
   subst d1. unfold dist_inflow in Hc. cbn [dw_bal dw_burned] in Hc. rewrite btotal_aset in Hc.
   rewrite dc_add_amt in Hc by (try apply Hb; exact Hcw). rewrite minted_coins_amt in Hc. lia.
 Qed.
+
+(* ---------------------------------------------------------------- whole histories ---------- *)
+Lemma payout_all_wf sts : forall b sts' b', payout_all sts b = Ok (sts', b') -> bank_ok b -> states_wf sts -> states_wf sts'.
+Proof.
+  induction sts as [|s t IH]; intros b sts' b' H Hb Hw; cbn [payout_all] in H.
+  - injection H as <- <-. constructor.
+  - inversion Hw as [|? ? Hs Ht]; subst. destruct (payout s b) as [[s1 b1]| |] eqn:E; try discriminate.
+    destruct (payout_conserves _ _ _ _ E Hb Hs) as [H1 Hs1].
+    destruct (payout_all t b1) as [[t1 b2]| |] eqn:E2; try discriminate. injection H as <- <-.
+    constructor; [exact Hs1|]. eapply IH; [exact E2|eapply conserves_ok; exact H1|exact Ht].
+Qed.
+
+Lemma store_insert_wf s : forall l, dc_wf (st_rem s) -> states_wf l -> states_wf (store_insert s l).
+Proof.
+  induction l as [|x t IH]; intros Hs Hl; cbn [store_insert]; [constructor; [exact Hs|constructor]|].
+  inversion Hl as [|? ? Hx Ht]; subst. destruct (st_key s <? st_key x); [constructor; assumption|].
+  destruct (st_key s =? st_key x); [constructor; assumption|]. constructor; [exact Hx|apply IH; assumption].
+Qed.
+
+Lemma store_all_wf sts : forall store, states_wf sts -> states_wf store -> states_wf (store_all sts store).
+Proof.
+  unfold store_all. induction sts as [|s t IH]; intros store Hs Hst; cbn [fold_left]; [exact Hst|].
+  inversion Hs as [|? ? H1 H2]; subst. apply IH; [exact H2|apply store_insert_wf; assumption].
+Qed.
+
+(* the well-formedness the conservation theorem needs is itself kept by a block *)
+Lemma dist_block_keeps_wf w w' evs calls :
+  dist_begin_block w [] = Ok (w', evs, calls) ->
+  bank_wf (dw_bal w) -> dc_wf (dw_burned w) -> states_wf (dw_states w) ->
+  bank_wf (dw_bal w') /\ dc_wf (dw_burned w') /\ states_wf (dw_states w').
+Proof.
+  unfold dist_begin_block. intros H Hb Hbu Hw.
+  set (b0 := {| bk_bal := dw_bal w; bk_burned := dw_burned w; bk_faults := []; bk_calls := 0 |}) in *.
+  assert (Hb0 : bank_ok b0) by (repeat split; assumption).
+  destruct (run_subs (dw_subs w) (dw_states w) b0 (dw_burnkey w) []) as [[[sts b1] e]| |] eqn:E; try discriminate.
+  pose proof (run_subs_conserves _ _ _ _ _ _ _ _ E Hb0) as H1.
+  pose proof (run_subs_wf _ _ _ _ _ _ _ _ E Hb0 Hw) as Hw1.
+  destruct (payout_all sts b1) as [[sts2 b2]| |] eqn:E2; try discriminate.
+  pose proof (payout_all_conserves _ _ _ _ E2 (conserves_ok _ _ H1) Hw1) as H2.
+  pose proof (payout_all_wf _ _ _ _ E2 (conserves_ok _ _ H1) Hw1) as Hw2.
+  injection H as <- _ _. cbn [dw_bal dw_burned dw_states].
+  destruct H2 as (A & B & _ & _). split; [exact A|]. split; [exact B|]. apply store_all_wf; assumption.
+Qed.
+
+(* a history of blocks at the given times; returns the total the schedule minted *)
+Fixpoint app_run (w : aworld) (times : list Z) : outcome (Z * aworld) :=
+  match times with
+  | [] => Ok (0, w)
+  | now :: t =>
+      match app_begin_block w now with
+      | Ok (a, w1) => match app_run w1 t with Ok (tot, w2) => Ok (a + tot, w2) | Err => Err | Panic => Panic end
+      | Err => Err | Panic => Panic
+      end
+  end.
+
+Lemma app_block_keeps_denom w now a w' : app_begin_block w now = Ok (a, w') -> aw_mint_denom w' = aw_mint_denom w.
+Proof.
+  unfold app_begin_block. destruct (begin_block (aw_minter w) now) as [[a0 m']| |]; try discriminate.
+  destruct (dist_begin_block _ []) as [[[d' evs] calls]| |]; try discriminate. intros H. injection H as _ <-. reflexivity.
+Qed.
+
+Lemma app_block_keeps_wf w now a w' :
+  app_begin_block w now = Ok (a, w') -> 0 <= aw_mint_denom w ->
+  bank_wf (dw_bal (aw_distr w)) -> dc_wf (dw_burned (aw_distr w)) -> states_wf (dw_states (aw_distr w)) ->
+  bank_wf (dw_bal (aw_distr w')) /\ dc_wf (dw_burned (aw_distr w')) /\ states_wf (dw_states (aw_distr w')).
+Proof.
+  unfold app_begin_block. intros H Hd Hb Hbu Hs.
+  destruct (begin_block (aw_minter w) now) as [[a0 m']| |]; try discriminate.
+  set (d1 := dist_inflow (aw_distr w) MAINADDR (minted_coins (aw_mint_denom w) a0)) in H.
+  destruct (dist_begin_block d1 []) as [[[d' evs] calls]| |] eqn:Ed; try discriminate. injection H as _ <-. cbn [aw_distr].
+  apply (dist_block_keeps_wf d1 d' evs calls Ed); subst d1; unfold dist_inflow; cbn [dw_bal dw_burned dw_states]; try assumption.
+  apply bank_wf_aset; [exact Hb|]. apply dc_add_wf; [apply Hb|apply minted_coins_wf; exact Hd].
+Qed.
+
+(* C01 over whole histories of the two begin-blockers: per denomination, the sum of all balances plus everything burned grows
+   by exactly what the schedule minted (in the mint denomination; nothing in any other), and the supply counter by the same *)
+Theorem app_history_supply times : forall w tot w',
+  app_run w times = Ok (tot, w') -> 0 <= aw_mint_denom w ->
+  bank_wf (dw_bal (aw_distr w)) -> dc_wf (dw_burned (aw_distr w)) -> states_wf (dw_states (aw_distr w)) ->
+  0 <= tot /\ mw_supply (aw_minter w') = mw_supply (aw_minter w) + tot /\
+  forall d, btotal d (dw_bal (aw_distr w')) + dc_amt d (dw_burned (aw_distr w')) =
+            btotal d (dw_bal (aw_distr w)) + dc_amt d (dw_burned (aw_distr w)) + (if d =? aw_mint_denom w then tot else 0).
+Proof.
+  induction times as [|now t IH]; intros w tot w' H Hd Hb Hbu Hs; cbn [app_run] in H.
+  - injection H as <- <-. split; [lia|]. split; [lia|]. intros d. destruct (d =? aw_mint_denom w); lia.
+  - destruct (app_begin_block w now) as [[a w1]| |] eqn:E1; try discriminate.
+    destruct (app_run w1 t) as [[tot1 w2]| |] eqn:E2; try discriminate. injection H as <- <-.
+    destruct (app_block_supply w now a w1 E1 Hd Hb Hbu Hs) as (Ha & Hsup & Hbal).
+    destruct (app_block_keeps_wf w now a w1 E1 Hd Hb Hbu Hs) as (Hb1 & Hbu1 & Hs1).
+    pose proof (app_block_keeps_denom w now a w1 E1) as Hden.
+    destruct (IH w1 tot1 w2 E2 ltac:(rewrite Hden; exact Hd) Hb1 Hbu1 Hs1) as (Ht & Hsup2 & Hbal2).
+    split; [lia|]. split; [lia|]. intros d. specialize (Hbal d). specialize (Hbal2 d). rewrite Hden in Hbal2.
+    destruct (d =? aw_mint_denom w); lia.
+Qed.
+
+(* the minter's part of an application history is the minter's own block sequence (MinterWalk.run_blocks), so C02's closed form
+   applies to the total the history mints *)
+From C4E Require Import MinterWalk.
+
+Lemma app_block_minter w now a w' : app_begin_block w now = Ok (a, w') ->
+  mw_params (aw_minter w') = mw_params (aw_minter w) /\
+  exists h, mint (mw_params (aw_minter w)) (mw_state (aw_minter w)) now = Ok (a, mw_state (aw_minter w'), h).
+Proof.
+  unfold app_begin_block. destruct (begin_block (aw_minter w) now) as [[a0 m']| |] eqn:Em; try discriminate.
+  destruct (dist_begin_block _ []) as [[[d' evs] calls]| |]; try discriminate. intros H. injection H as <- <-. cbn [aw_minter].
+  unfold begin_block in Em. destruct (mint (mw_params (aw_minter w)) (mw_state (aw_minter w)) now) as [[[a1 st] h]| |]; try discriminate.
+  injection Em as <- <-. cbn [mw_params mw_state]. split; [reflexivity|]. exists h. reflexivity.
+Qed.
+
+Lemma app_run_minter times : forall w tot w', app_run w times = Ok (tot, w') ->
+  run_blocks (mw_params (aw_minter w)) (mw_state (aw_minter w)) times = Ok (tot, mw_state (aw_minter w')).
+Proof.
+  induction times as [|now t IH]; intros w tot w' H; cbn [app_run run_blocks] in *.
+  - injection H as <- <-. reflexivity.
+  - destruct (app_begin_block w now) as [[a w1]| |] eqn:E1; try discriminate.
+    destruct (app_run w1 t) as [[tot1 w2]| |] eqn:E2; try discriminate. injection H as <- <-.
+    destruct (app_block_minter w now a w1 E1) as (Hp & h & Hm). rewrite Hm. rewrite <- Hp. rewrite (IH w1 tot1 w2 E2). reflexivity.
+Qed.
+
+(* C01 + C02: from a genesis with zero counters, after any strictly increasing sequence of block times, everything that exists
+   (all balances plus everything burned, in the mint denomination) has grown by exactly the integer part of the schedule's
+   cumulative emission at the last block time — whatever the block cadence, whatever the distributor configuration did with it *)
+Theorem app_history_supply_is_schedule times : forall w tot w' Tl,
+  app_run w times = Ok (tot, w') -> 0 <= aw_mint_denom w ->
+  bank_wf (dw_bal (aw_distr w)) -> dc_wf (dw_burned (aw_distr w)) -> states_wf (dw_states (aw_distr w)) ->
+  let p := mw_params (aw_minter w) in let g := mw_state (aw_minter w) in
+  params_valid p = true -> periods_sane_from (mp_start p) (mp_minters p) -> mp_denom_ok p = true -> 0 <= mp_start p ->
+  match mp_minters p with cur :: _ => s_seq g = m_seq cur | [] => True end -> s_minted g = 0 -> s_rem_prev g = 0 ->
+  s_last g <= Tl -> increasing Tl times -> Forall (fun t => t <= MAXI64) times -> times <> [] ->
+  tot = (if last times Tl <? mp_start p then 0 else dec_trunc_int (exact_sum (mp_start p) (mp_minters p) (last times Tl))) /\
+  forall d, btotal d (dw_bal (aw_distr w')) + dc_amt d (dw_burned (aw_distr w')) =
+            btotal d (dw_bal (aw_distr w)) + dc_amt d (dw_burned (aw_distr w)) + (if d =? aw_mint_denom w then tot else 0).
+Proof.
+  intros w tot w' Tl H Hd Hb Hbu Hs p g Hv Hsane Hdn H0 Hg1 Hg2 Hg3 H1 H2 H3 H4.
+  pose proof (app_run_minter times w tot w' H) as Hr. fold p g in Hr.
+  destruct (partition_independence p (valid_chain _ _ _ Hv Hsane) Hdn H0 g Hg1 Hg2 Hg3 times Tl H1 H2 H3 H4) as (st' & Hc).
+  rewrite Hc in Hr. injection Hr as Ht _. split; [symmetry; exact Ht|].
+  exact (proj2 (proj2 (app_history_supply times w tot w' H Hd Hb Hbu Hs))).
+Qed.
